@@ -63,6 +63,8 @@ func compositeIntField(c *Ctx, varName, field string) (int64, bool) {
 }
 
 func runC06(c *Ctx) {
+	c.R.Rule("R-state-writers", "who-may-write", "the running total of a chunked message is written only by handleBdat (after a successful copy) and reset()", 1)
+	c.obWriters("Conn.bytesReceived", "grows with accepted chunks, zeroed at every transaction end", "(*Conn).handleBdat", "(*Conn).reset")
 	// a message over the limit is answered 552 only if the drain still finds the end marker: the reader keeps its framing
 	ruleDotStructure(c)
 	R := c.R
